@@ -328,6 +328,12 @@ func NewCommitVoteSetFromBytes(bs []byte) module.CommitVoteSet {
 	if err != nil {
 		return nil
 	}
+	for i := range vl.Items {
+		// a signature without V can be neither recovered nor re-encoded
+		if sig := vl.Items[i].Signature.Signature; sig != nil && !sig.HasV() {
+			return nil
+		}
+	}
 	return vl
 }
 
